@@ -558,13 +558,13 @@ Theorem sp_mul_backward_error : forall (u : R), (0 <= u < 1)%R ->
   forall (s : sparse (ARm fadd fsub fmul fdiv)) (x y : list R),
   wfS s -> sp_mul s x = Ok y ->
   length y = sp_rows s /\
-  forall i, (i < sp_rows s)%nat -> (INR (length (row_entries fadd fsub fmul fdiv s i)) * u < 1)%R ->
+  forall i, (i < sp_rows s)%nat -> (INR (length (row_entries s i)) * u < 1)%R ->
     exists th : nat -> R,
-      (forall t, (t < length (row_entries fadd fsub fmul fdiv s i))%nat ->
-         (Rabs (th t) <= gam u (length (row_entries fadd fsub fmul fdiv s i)))%R) /\
-      nth i y 0%R = Rsum (length (row_entries fadd fsub fmul fdiv s i))
-                      (fun t => (re_val fadd fsub fmul fdiv s i t * (1 + th t)
-                                 * nth (re_col fadd fsub fmul fdiv s i t) x 0)%R).
+      (forall t, (t < length (row_entries s i))%nat ->
+         (Rabs (th t) <= gam u (length (row_entries s i)))%R) /\
+      nth i y 0%R = Rsum (length (row_entries s i))
+                      (fun t => (re_val s i t * (1 + th t)
+                                 * nth (re_col s i t) x 0)%R).
 Proof. intros u Hu fadd fsub fmul fdiv Ha Hm H0 s x y. exact (sp_mul_backward_error_lemma u Hu fadd fsub fmul fdiv Ha Hm H0 s x y). Qed.
 Check sp_mul_backward_error : forall (u : R), (0 <= u < 1)%R ->
   forall (fadd fsub fmul fdiv : R -> R -> R),
@@ -574,13 +574,13 @@ Check sp_mul_backward_error : forall (u : R), (0 <= u < 1)%R ->
   forall (s : sparse (ARm fadd fsub fmul fdiv)) (x y : list R),
   wfS s -> sp_mul s x = Ok y ->
   length y = sp_rows s /\
-  forall i, (i < sp_rows s)%nat -> (INR (length (row_entries fadd fsub fmul fdiv s i)) * u < 1)%R ->
+  forall i, (i < sp_rows s)%nat -> (INR (length (row_entries s i)) * u < 1)%R ->
     exists th : nat -> R,
-      (forall t, (t < length (row_entries fadd fsub fmul fdiv s i))%nat ->
-         (Rabs (th t) <= gam u (length (row_entries fadd fsub fmul fdiv s i)))%R) /\
-      nth i y 0%R = Rsum (length (row_entries fadd fsub fmul fdiv s i))
-                      (fun t => (re_val fadd fsub fmul fdiv s i t * (1 + th t)
-                                 * nth (re_col fadd fsub fmul fdiv s i t) x 0)%R).
+      (forall t, (t < length (row_entries s i))%nat ->
+         (Rabs (th t) <= gam u (length (row_entries s i)))%R) /\
+      nth i y 0%R = Rsum (length (row_entries s i))
+                      (fun t => (re_val s i t * (1 + th t)
+                                 * nth (re_col s i t) x 0)%R).
 Print Assumptions sp_mul_backward_error.
 (* the 2x2 matrix [[1,0],[2,3]] in compressed-column form times [5,6], in the arithmetic that rounds every operation *)
 Example sp_mul_backward_error_nonvacuous :
@@ -589,8 +589,8 @@ Example sp_mul_backward_error_nonvacuous :
   (forall x y : R, exists d : R, (Rabs d <= ux)%R /\ xmul x y = (x * y * (1 + d))%R) /\
   (forall a b : R, xadd 0%R (xmul a b) = xmul a b) /\
   wfS ex_sp /\ (exists y, sp_mul ex_sp [5%R; 6%R] = Ok y) /\
-  (forall i, (i < sp_rows ex_sp)%nat -> (INR (length (row_entries xadd xsub xmul xdiv ex_sp i)) * ux < 1)%R) /\
-  length (row_entries xadd xsub xmul xdiv ex_sp 1) = 2%nat.
+  (forall i, (i < sp_rows ex_sp)%nat -> (INR (length (row_entries ex_sp i)) * ux < 1)%R) /\
+  length (row_entries ex_sp 1) = 2%nat.
 Proof.
   split; [exact ux_range|]. split; [exact xadd_ok|]. split; [exact xmul_ok|]. split; [exact xadd_0_mul|].
   split; [exact ex_sp_wf|]. split; [eexists; reflexivity|]. split; [exact ex_sp_rows|reflexivity].
@@ -603,12 +603,12 @@ Theorem sp_mul_forward_error : forall (u : R), (0 <= u < 1)%R ->
   (forall a b : R, fadd 0%R (fmul a b) = fmul a b) ->
   forall (s : sparse (ARm fadd fsub fmul fdiv)) (x y : list R),
   wfS s -> sp_mul s x = Ok y ->
-  forall i, (i < sp_rows s)%nat -> (INR (length (row_entries fadd fsub fmul fdiv s i)) * u < 1)%R ->
-    (Rabs (nth i y 0 - Rsum (length (row_entries fadd fsub fmul fdiv s i))
-                         (fun t => re_val fadd fsub fmul fdiv s i t * nth (re_col fadd fsub fmul fdiv s i t) x 0))
-       <= gam u (length (row_entries fadd fsub fmul fdiv s i))
-          * Rsum (length (row_entries fadd fsub fmul fdiv s i))
-              (fun t => Rabs (re_val fadd fsub fmul fdiv s i t) * Rabs (nth (re_col fadd fsub fmul fdiv s i t) x 0)))%R.
+  forall i, (i < sp_rows s)%nat -> (INR (length (row_entries s i)) * u < 1)%R ->
+    (Rabs (nth i y 0 - Rsum (length (row_entries s i))
+                         (fun t => re_val s i t * nth (re_col s i t) x 0))
+       <= gam u (length (row_entries s i))
+          * Rsum (length (row_entries s i))
+              (fun t => Rabs (re_val s i t) * Rabs (nth (re_col s i t) x 0)))%R.
 Proof. intros u Hu fadd fsub fmul fdiv Ha Hm H0 s x y. exact (sp_mul_forward_error_lemma u Hu fadd fsub fmul fdiv Ha Hm H0 s x y). Qed.
 Check sp_mul_forward_error : forall (u : R), (0 <= u < 1)%R ->
   forall (fadd fsub fmul fdiv : R -> R -> R),
@@ -617,17 +617,67 @@ Check sp_mul_forward_error : forall (u : R), (0 <= u < 1)%R ->
   (forall a b : R, fadd 0%R (fmul a b) = fmul a b) ->
   forall (s : sparse (ARm fadd fsub fmul fdiv)) (x y : list R),
   wfS s -> sp_mul s x = Ok y ->
-  forall i, (i < sp_rows s)%nat -> (INR (length (row_entries fadd fsub fmul fdiv s i)) * u < 1)%R ->
-    (Rabs (nth i y 0 - Rsum (length (row_entries fadd fsub fmul fdiv s i))
-                         (fun t => re_val fadd fsub fmul fdiv s i t * nth (re_col fadd fsub fmul fdiv s i t) x 0))
-       <= gam u (length (row_entries fadd fsub fmul fdiv s i))
-          * Rsum (length (row_entries fadd fsub fmul fdiv s i))
-              (fun t => Rabs (re_val fadd fsub fmul fdiv s i t) * Rabs (nth (re_col fadd fsub fmul fdiv s i t) x 0)))%R.
+  forall i, (i < sp_rows s)%nat -> (INR (length (row_entries s i)) * u < 1)%R ->
+    (Rabs (nth i y 0 - Rsum (length (row_entries s i))
+                         (fun t => re_val s i t * nth (re_col s i t) x 0))
+       <= gam u (length (row_entries s i))
+          * Rsum (length (row_entries s i))
+              (fun t => Rabs (re_val s i t) * Rabs (nth (re_col s i t) x 0)))%R.
 Print Assumptions sp_mul_forward_error.
 Example sp_mul_forward_error_nonvacuous :   (* same instance *)
   (0 <= ux < 1)%R /\ wfS ex_sp /\ (exists y, sp_mul ex_sp [5%R; 6%R] = Ok y) /\
-  (forall i, (i < sp_rows ex_sp)%nat -> (INR (length (row_entries xadd xsub xmul xdiv ex_sp i)) * ux < 1)%R).
+  (forall i, (i < sp_rows ex_sp)%nat -> (INR (length (row_entries ex_sp i)) * ux < 1)%R).
 Proof. split; [exact ux_range|]. split; [exact ex_sp_wf|]. split; [eexists; reflexivity|exact ex_sp_rows]. Qed.
+
+(* ---- the same at the PRIMITIVE-FLOAT instance (IEEE binary64, u = 2^-53), through Flocq: for every finite component
+   of the result whose products do not underflow; no hypothesis about rounding remains ---- *)
+From Coq Require Import Floats.
+From OV Require Import Inst.FloatInst Proofs.ComplexRound Proofs.RoundDotFloat.
+
+Theorem sp_mul_backward_error_float : forall (s : sparse AF) (x y : list PrimFloat.float),
+  wfS s -> sp_mul (A := AF) s x = Ok y ->
+  length y = sp_rows s /\
+  forall i, (i < sp_rows s)%nat -> ffinite (nth i y 0%float) ->
+    (forall t, (t < length (row_entries s i))%nat ->
+       no_underflow (FR (re_val s i t) * FR (nth (re_col s i t) x 0%float))%R) ->
+    (INR (length (row_entries s i)) * u64 < 1)%R ->
+    exists th : nat -> R,
+      (forall t, (t < length (row_entries s i))%nat -> (Rabs (th t) <= g64 (length (row_entries s i)))%R) /\
+      FR (nth i y 0%float) = Rsum (length (row_entries s i))
+                               (fun t => (FR (re_val s i t) * (1 + th t) * FR (nth (re_col s i t) x 0%float))%R).
+Proof. exact sp_mul_backward_error_float_lemma. Qed.
+Check sp_mul_backward_error_float : forall (s : sparse AF) (x y : list PrimFloat.float),
+  wfS s -> sp_mul (A := AF) s x = Ok y ->
+  length y = sp_rows s /\
+  forall i, (i < sp_rows s)%nat -> ffinite (nth i y 0%float) ->
+    (forall t, (t < length (row_entries s i))%nat ->
+       no_underflow (FR (re_val s i t) * FR (nth (re_col s i t) x 0%float))%R) ->
+    (INR (length (row_entries s i)) * u64 < 1)%R ->
+    exists th : nat -> R,
+      (forall t, (t < length (row_entries s i))%nat -> (Rabs (th t) <= g64 (length (row_entries s i)))%R) /\
+      FR (nth i y 0%float) = Rsum (length (row_entries s i))
+                               (fun t => (FR (re_val s i t) * (1 + th t) * FR (nth (re_col s i t) x 0%float))%R).
+Print Assumptions sp_mul_backward_error_float.
+(* [[1.5,0],[2,3]] in compressed-column form times [3,4] in binary64; row 1 accumulates two products *)
+Example sp_mul_backward_error_float_nonvacuous :
+  let s := @mkS AF 2 2 3 [1.5%float; 2%float; 3%float] [0%nat; 1%nat; 1%nat] [0%nat; 2%nat; 3%nat] in
+  let x := [3%float; 4%float] in
+  wfS s /\ exists y, sp_mul (A := AF) s x = Ok y /\ ffinite (nth 1 y 0%float) /\
+    (forall t, (t < length (row_entries s 1))%nat ->
+       no_underflow (FR (re_val s 1 t) * FR (nth (re_col s 1 t) x 0%float))%R) /\
+    (INR (length (row_entries s 1)) * u64 < 1)%R /\ length (row_entries s 1) = 2%nat.
+Proof.
+  cbn zeta. split.
+  { unfold wfS; cbn. repeat split; try reflexivity.
+    - intros [|[|j]] Hj; cbn; lia.
+    - intros [|[|[|k]]] Hk; cbn; lia. }
+  eexists. split; [vm_compute; reflexivity|]. split; [apply ffinite_SF; reflexivity|].
+  assert (E2 : FR 2%float = 2%R) by fr_eval. assert (E3 : FR 3%float = 3%R) by fr_eval.
+  assert (E4 : FR 4%float = 4%R) by fr_eval.
+  split; [|split; [cbn; pose proof u64_small; lra|reflexivity]].
+  intros [|[|t]] Ht; cbn in Ht; try lia; unfold re_val, re_col; cbn -[FR]; rewrite ?E2, ?E3, ?E4;
+    apply no_underflow_ge1; rewrite Rabs_pos_eq; lra.
+Qed.
 
 (* ---------- Props/pending/C11_round.v.txt ---------- *)
 (* ======================================================================================================
